@@ -213,7 +213,7 @@ var oraclesC18 = []string{"no-panic/terminates", "output-is-prefix", "no-report-
 
 type gen18 struct{ r *common.RNG }
 
-var spaceAtoms = []string{" ", " ", " ", "\n", "\n", "\t", "\r\n", ";", "\f", "  ", "\n\n"}
+var spaceAtoms = []string{" ", " ", " ", "\n", "\n", "\t", "\r\n", "  ", "\n\n", "\r"}
 var commentAtoms = []string{"// c\n", "//\n", "// import \"no\"\n", "/* c */", "/**/", "/***/", "/*/ x */", "/* a\n b */", "/* \"q\" `r` */", "// é ü\n", "/* import ( */", "//go:build x\n", "// +build x\n"}
 
 func (g *gen18) trivia(min int) string {
@@ -307,7 +307,7 @@ func (g *gen18) spec(paths *[]string) string {
 }
 
 var restAtoms = []string{"", "func f() {}\n", "var x = 1\n", "type T int\n", "const c = \"import\"\n", "func init() { println(\"import (\") }\n",
-	"var i = 1\n", "type i interface{}\n", "func main() {}\n\nimport \"late\"\n"}
+	"var i = 1\n", "type i interface{}\n"}
 
 // file renders one import section followed by declarations; paths are the expected literals.
 func (g *gen18) file() (src []byte, paths []string) {
@@ -327,7 +327,8 @@ func (g *gen18) file() (src []byte, paths []string) {
 	term := func() string { // what ends a clause: newline or ';' (go/parser needs one of them)
 		return common.Pick(g.r, []string{"\n", "\n", ";", " ;", "\n\n", " // c\n", "\r\n"})
 	}
-	if nd > 0 || g.r.Chance(3, 4) {
+	rest := common.Pick(g.r, restAtoms)
+	if nd > 0 || rest != "" || g.r.Chance(1, 2) {
 		b.WriteString(term())
 	}
 	for i := 0; i < nd; i++ {
@@ -359,10 +360,11 @@ func (g *gen18) file() (src []byte, paths []string) {
 		b.WriteString(term())
 	}
 	b.WriteString(g.trivia(0))
-	rest := common.Pick(g.r, restAtoms)
 	b.WriteString(rest)
 	return []byte(b.String()), paths
 }
+
+const mutAlphabet = "\"`/*\n;()._ i\\\x00"
 
 func mutate(r *common.RNG, x []byte) []byte {
 	y := append([]byte{}, x...)
@@ -373,9 +375,9 @@ func mutate(r *common.RNG, x []byte) []byte {
 		case 0:
 			y = append(y[:p], y[p+1:]...)
 		case 1:
-			y[p] = "\"`/*\n;()._ i\\\x00"[r.Intn(15)]
+			y[p] = mutAlphabet[r.Intn(len(mutAlphabet))]
 		case 2:
-			y = append(y[:p], append([]byte{"\"`/*\n;()._ i\\\x00"[r.Intn(15)]}, y[p:]...)...)
+			y = append(y[:p], append([]byte{mutAlphabet[r.Intn(len(mutAlphabet))]}, y[p:]...)...)
 		case 3:
 			y = y[:p]
 		case 4:
@@ -435,9 +437,13 @@ func (rn *runner) caseC18(x []byte, src string, expect []string) {
 	}
 	for _, name := range oraclesC18 {
 		if bad, impl, want := oracleC18(name, x); bad {
-			rn.violate("ReadImports/"+name, x, map[string]string{"fn": "ReadImports"}, impl, want,
-				"property C18 evaluated directly on the implementation",
-				func(c []byte) bool { b, _, _ := oracleC18(name, c); return b })
+			y := x
+			if rn.shrunk["o:ReadImports/"+name] < 6 && len(x) > 40 {
+				y = common.ShrinkBytes(x, func(c []byte) bool { b, _, _ := oracleC18(name, c); return b })
+				_, impl, want = oracleC18(name, y)
+			}
+			rn.violate("ReadImports/"+name, y, map[string]string{"fn": "ReadImports"}, impl, want,
+				"property C18 evaluated directly on the implementation", nil)
 			if o1.hung {
 				rn.flush()
 				rn.res.Write(rn.f.Out)
@@ -462,7 +468,7 @@ func (rn *runner) caseC18(x []byte, src string, expect []string) {
 }
 
 var handC18 = []string{
-	"", "package p", "package p\n", "\xef\xbb\xbfpackage p;import \"fmt\"\n", "\xef\xbb\xbf", "\xef\xbb", "\xef\xbb\xbf\xef\xbb\xbfpackage p",
+	"\xef\xbb\xbfpackage p;import \"fmt\"\n", "", "package p", "package p\n", "package p\nfunc main() {}\n\nimport \"late\"\n", "\xef\xbb\xbf", "\xef\xbb", "\xef\xbb\xbf\xef\xbb\xbfpackage p",
 	"package p;import \"fmt\"\nfunc f(){}", "package p\nimport (\n\t\"a\"\n\tb \"c\"\n\t. \"d\"\n\t_ `e`\n)\nvar x int\n",
 	"package p\nimport \"a\"\nimport \"b\"", "package p\nimport(\"a\";\"b\")", "package p\nimport \"a", "package p\nimport `a", "package p\nimport \"a\nb\"",
 	"package p\nimport \"a\\\"b\"\n", "package p\nimport (", "package p\nimport ()", "package p\nimport x", "package", "packagep", "package p\nimportx \"a\"",
